@@ -17,7 +17,9 @@ from ..sim import World, MS, HarnessError, Abort
 
 PID = "C16"
 DIRECT = D.DEFAULT_ADDR
-VIAS = (DIRECT, 0o1, 0o5, 0o15, 0o123, 0o444)  # 0o444: the only parent whose child slot 4 is the unassigned address 0o4444
+VIAS = (DIRECT, 0o1, 0o5, 0o15, 0o123)
+CORNER_VIAS = (0o444, 0o1)  # 0o444: the only parent whose child slot 4 is the unassigned address 0o4444
+IDS5 = (1, 2, 3, 4, 255)
 UNLEASED = 0o33  # never handed out by any request of the alphabet
 # The master waits route_timeout (default 75 ms) for a NETWORK_ACK after every reply routed over more
 # than one hop and repeats the reply when none arrives; no modelled node sends one, so the documented
@@ -29,7 +31,12 @@ STARTS = {
     "level1-full": [(11, 0o1), (12, 0o2), (13, 0o3), (14, 0o4), (15, 0o5)],
     "one-slot-free": [(11, 0o1), (12, 0o2), (14, 0o4), (15, 0o5)],
     "relay-children-full": [(21, 0o11), (22, 0o21), (23, 0o31), (24, 0o41)],
+    # corner family (relays 0o444 and 0o1 only)
+    "corner-empty": [],
+    "corner-0o444-one-free": [(31, 0o1444), (32, 0o2444)],
 }
+MAIN_STARTS = ("empty", "level1-full", "one-slot-free", "relay-children-full")
+CORNER_STARTS = ("corner-empty", "corner-0o444-one-free")
 
 
 def _always(pkt):
@@ -54,8 +61,8 @@ def via_name(via):
     return "direct" if via == DIRECT else "relay-L%d" % R.level(via)
 
 
-def alphabet(table, ids):
-    ev = [("req", i, v) for i in ids for v in VIAS]
+def alphabet(table, ids, vias=VIAS):
+    ev = [("req", i, v) for i in ids for v in vias]
     leased = sorted({a for _, a in table})
     for a in leased + [UNLEASED]:
         ev.append(("rel", a))
@@ -254,7 +261,7 @@ def run_history(start, hist, tmpdir, judge_last=True):
 
 
 def w_expand(item, rep):
-    start, hists, ids, collect, tag = item
+    start, hists, ids, collect, tag, vias = item
     tmpdir = tempfile.mkdtemp(prefix="vf_c16_", dir="/tmp")
     succ = []
     try:
@@ -264,7 +271,7 @@ def w_expand(item, rep):
             for i, ev in enumerate(hist):
                 apply_event(st, ev, tmpdir, judge=False)
             table = table_of(st[1])
-            for ev in alphabet(table, ids):
+            for ev in alphabet(table, ids, vias):
                 st2 = copy.deepcopy(st)
                 viol, out = apply_event(st2, ev, tmpdir, judge=True, history=hist)
                 rep.case()
@@ -284,7 +291,7 @@ def w_expand(item, rep):
     rep.part("bfs:" + start, transitions=len(succ))
 
 
-def bfs_parallel(start, ids, depth, rep, max_states):
+def bfs_parallel(start, ids, depth, rep, max_states, vias=VIAS):
     """level-synchronous E-BFS with global dedup on the lease table (sorted id->address map).
     A frontier state is identified by the shortest, lexicographically first history reaching it
     and is rebuilt by re-executing that history on a fresh master."""
@@ -295,7 +302,7 @@ def bfs_parallel(start, ids, depth, rep, max_states):
     for d in range(1, depth + 1):
         last = d == depth
         step = max(1, min(40, len(frontier) // 28 + 1))
-        items = [(start, frontier[i:i + step], ids, "hash" if last else "full", "%d.%d" % (d, i)) for i in range(0, len(frontier), step)]
+        items = [(start, frontier[i:i + step], ids, "hash" if last else "full", "%d.%d" % (d, i), vias) for i in range(0, len(frontier), step)]
         pmap(w_expand, items, rep)
         keys = [k for k in rep.notes if k.startswith("S|%s|" % start)]
         if last:
@@ -357,14 +364,17 @@ def w_persist(item, rep):
 
 def run(tier, seed, rep, only=None):
     depth = 5 if tier == "quick" else 7
-    ids = (1, 2, 3) if tier == "quick" else (1, 2, 3, 4, 255)
+    ids = (1, 2, 3)
     cap = None if tier == "quick" else 400000
     done = {}
-    for start in STARTS:
+    plan = [(s_, ids, depth, VIAS) for s_ in MAIN_STARTS] + [(s_, ids, depth, CORNER_VIAS) for s_ in CORNER_STARTS]
+    if tier != "quick":
+        plan += [(s_, IDS5, 5, VIAS) for s_ in ("empty", "one-slot-free")]
+    for start, ids_, depth_, vias in plan:
         if only and "bfs" not in only and start not in only:
             continue
-        d, n = bfs_parallel(start, ids, depth, rep, cap)
-        done[start] = dict(depth_completed=d, states_before_last_level=n)
+        d, n = bfs_parallel(start, ids_, depth_, rep, cap, vias)
+        done["%s/ids=%s" % (start, ",".join(map(str, ids_)))] = dict(depth_completed=d, depth_bound=depth_, states_before_last_level=n, vias=[oct(x) for x in vias])
     if not only or "persist" in only:
         pmap(w_persist, [(list(range(lo, min(lo + 8, 256))), seed) for lo in range(0, 256, 8)], rep)
     for k, vv in sorted(rep.outcomes.items()):
@@ -379,19 +389,21 @@ def run(tier, seed, rep, only=None):
         level="model_checking",
         exhaustive=True,
         rule="E-BFS, level-synchronous with global dedup on the lease table (as a sorted id->address map), over every event sequence up to the "
-             "depth bound from 4 starting tables on a real RF24Mesh master (node id 0). Events: address request of id i through "
-             "{direct, relay 0o1, 0o5, 0o15, 0o123, 0o444} (a MESH_ADDR_REQUEST radio packet from a ghost PTX into the master's pipe 0 / child "
+             "depth bound from 4 starting tables {empty, level 1 full, one slot free, relay 0o1's children full} on a real RF24Mesh master "
+             "(node id 0); a corner family with relays {0o444, 0o1} from 2 tables (0o444 is the only parent whose slot 4 is 0o4444)"
+             + ("; thorough: additionally ids {1,2,3,4,255} to depth 5 from 2 tables" if tier != "quick" else "") +
+             ". Events: address request of id i through {direct, relay 0o1, 0o5, 0o15, 0o123} (a MESH_ADDR_REQUEST radio packet from a ghost PTX into the master's pipe 0 / child "
              "pipe, then update()), release of every leased address and of one unleased address by MESH_ADDR_RELEASE packet and by "
              "release_address(addr), save_dhcp+load_dhcp in JSON and binary into the same and into a freshly constructed master "
              "(which then continues the history). Every reply is read from the simulated air. A frontier state is rebuilt by "
              "re-executing its history. Plus save/load of 3 structured tables of every size 0..255 x 2 formats x same/fresh master. "
              "states = distinct lease tables; transitions = executed events; non-trivial = distinct outcome classes + persistence tables.",
-        bounds=dict(depth=depth, ids=list(ids), vias=[oct(v) for v in VIAS], starts=list(STARTS), per_start=done, persistence_sizes="0..255 x 3 contents"),
+        bounds=dict(depth=depth, ids=list(ids), vias=[oct(v) for v in VIAS], corner_vias=[oct(v) for v in CORNER_VIAS], per_search=done, persistence_sizes="0..255 x 3 contents"),
         trusted_base=["vf/sim.py", "vf/ref/dhcp.py (lease constraints)", "vf/ref/route.py (tree, pipe addresses)", "vf/ref/netwire.py (frame codec)"],
         assumptions=["every reply of the master is acknowledged by its next hop (world.phantom_ack)",
                      "dedup on the lease table: the first history (shortest, then lexicographically first) that reaches a table represents it; "
                      "the master keeps no other lease-relevant state between update() calls",
-                     "relays are the fixed nodes 0o1, 0o5, 0o15, 0o123, 0o444 (levels 1-3); a reply is only *required* when one of the arrival node's "
+                     "relays are the fixed nodes 0o1, 0o5, 0o15, 0o123 and 0o444 (levels 1-3); a reply is only *required* when one of the arrival node's "
                      "child slots 1..4 (MESH_MAX_CHILDREN) is free"],
         min_outcomes=18,
     )
